@@ -4,7 +4,6 @@ import (
 	"fmt"
 	"math"
 	"sort"
-	"strings"
 	"sync"
 	"sync/atomic"
 	"time"
@@ -38,12 +37,24 @@ type rtRun struct {
 	sc rtScenario
 	gw *gateway
 
-	start     int64
-	shadow    int32
-	maxShadow int32
-	overAt    int64 // time of the first shadow excess
-	overReply int64 // allocate: number of replies served when the excess was seen
-	outageOn  int32 // outage-rate: the server answers errors only
+	start int64
+
+	// shadow in-flight state; all of it is read and written under shMu, in the same critical section as the check.
+	// Admissions are attributed to the limiter OBJECT GetOrDefault returned (the local wrapper or the remote one), so
+	// "requests of both objects are in flight at once" = a local<->remote switch happened between the oldest admission
+	// that is still running and the newest one.
+	shMu        sync.Mutex
+	nLocal      int32
+	nRemote     int32
+	maxShadow   int32 // highest total ever seen
+	otherMax    int32 // highest total above global that a switch does NOT explain (one semaphore alone is over its own limit)
+	overAt      int64 // time of the first such excess
+	overReply   int64 // number of server replies served at that time
+	carryMax    int32 // highest total above global with both objects in flight, each within its own limit (local<=local max, remote<=global)
+	carryLocal  int32
+	carryRemote int32
+	carryAt     int64
+	outageOn    int32 // outage-rate: the server answers errors only
 
 	mu      sync.Mutex
 	replies []replyRec
@@ -202,6 +213,7 @@ func (x *rtRun) reportPanics(r *vkit.R) {
 // runInflightWorkers drives a max-in-flight limiter with more workers than the global limit and keeps the shadow counter.
 func (x *rtRun) runInflightWorkers(stop <-chan struct{}, n int, g *vkit.Rand) *sync.WaitGroup {
 	var wg sync.WaitGroup
+	localFC := x.gw.local // the object Load() returns while the remote limiter is not in effect
 	for w := 0; w < n; w++ {
 		wg.Add(1)
 		rng := g.Sub(w)
@@ -216,24 +228,26 @@ func (x *rtRun) runInflightWorkers(stop <-chan struct{}, n int, g *vkit.Rand) *s
 				hold := time.Duration(500+rng.Intn(3000)) * time.Microsecond
 				p := vkit.Safely(func() {
 					fc := x.gw.fc()
+					isLocal := fc == localFC
 					atomic.AddInt64(&x.attempts, 1)
 					if fc.TryAcquire() {
 						atomic.AddInt64(&x.admissions, 1)
-						cur := atomic.AddInt32(&x.shadow, 1)
-						for {
-							m := atomic.LoadInt32(&x.maxShadow)
-							if cur <= m {
-								break
-							}
-							if atomic.CompareAndSwapInt32(&x.maxShadow, m, cur) {
-								if cur > x.bound() && atomic.CompareAndSwapInt64(&x.overAt, 0, bed.Now()) {
-									atomic.StoreInt64(&x.overReply, atomic.LoadInt64(&x.k))
-								}
-								break
-							}
+						x.shMu.Lock()
+						if isLocal {
+							x.nLocal++
+						} else {
+							x.nRemote++
 						}
+						x.noteShadowLocked()
+						x.shMu.Unlock()
 						time.Sleep(hold)
-						atomic.AddInt32(&x.shadow, -1)
+						x.shMu.Lock()
+						if isLocal {
+							x.nLocal--
+						} else {
+							x.nRemote--
+						}
+						x.shMu.Unlock()
 						fc.Release()
 					} else {
 						time.Sleep(300 * time.Microsecond)
@@ -251,14 +265,50 @@ func (x *rtRun) runInflightWorkers(stop <-chan struct{}, n int, g *vkit.Rand) *s
 	return &wg
 }
 
-// bound is the number of requests that may be in flight at once.
-func (x *rtRun) bound() int32 {
-	if x.sc.Class == "ready-flap" || x.sc.Class == "unknown-outage" || strings.HasPrefix(x.sc.Class, "allocate-") {
-		// requests admitted by the local limiter stay in flight while the remote one takes over (and vice versa): two
-		// semaphores by design; not judged (see assumptions) -> sound widened bound
-		return x.sc.Cfg.G + x.sc.Cfg.L
+// noteShadowLocked classifies the current in-flight totals (called under shMu right after an increment).
+// total > global with requests of BOTH limiter objects in flight, each object within its own limit, is the carry-over
+// across a local<->remote switch (two independent semaphores); any other total > global means one semaphore alone admitted
+// more than its limit and keeps the exceeds-global signatures.
+func (x *rtRun) noteShadowLocked() {
+	tot := x.nLocal + x.nRemote
+	if tot > x.maxShadow {
+		x.maxShadow = tot
 	}
-	return x.sc.Cfg.G
+	cfg := x.sc.Cfg
+	if tot <= cfg.G {
+		return
+	}
+	if x.nLocal > 0 && x.nRemote > 0 && x.nLocal <= cfg.L && x.nRemote <= cfg.G {
+		if tot > x.carryMax {
+			x.carryMax, x.carryLocal, x.carryRemote, x.carryAt = tot, x.nLocal, x.nRemote, bed.Now()
+		}
+		return
+	}
+	if tot > x.otherMax {
+		x.otherMax = tot
+	}
+	if x.overAt == 0 {
+		x.overAt = bed.Now()
+		x.overReply = atomic.LoadInt64(&x.k)
+	}
+}
+
+// inflightWorkers: enough workers to see global+local+1 requests at once.
+func (x *rtRun) inflightWorkers() int { return int(x.sc.Cfg.G+x.sc.Cfg.L) + 6 }
+
+const (
+	sigCarryCount    = "C09/count-maxinflight/inflight-above-global/carryover-across-local-remote-switch"
+	sigCarryAllocate = "C09/allocate-maxinflight/inflight-above-global/carryover-across-local-remote-switch"
+)
+
+func (x *rtRun) reportCarryover(r *vkit.R, sig, how string, witness interface{}) {
+	if x.carryMax <= x.sc.Cfg.G {
+		return
+	}
+	r.Count("rt_carryover_above_global_observed", 1)
+	r.Violation(sig,
+		fmt.Sprintf("max-in-flight schema local=%d global=%d, %s: %d requests were in flight at once %.3fs into the run = %d admitted by the local limiter object + %d admitted by the remote one (each within its own limit; the two objects are independent semaphores, requests admitted by one stay in flight while Load() hands out the other)",
+			x.sc.Cfg.L, x.sc.Cfg.G, how, x.carryMax, float64(x.carryAt-x.start)/1e9, x.carryLocal, x.carryRemote), witness)
 }
 
 func (x *rtRun) runBucketWorkers(stop <-chan struct{}, n int, g *vkit.Rand) *sync.WaitGroup {
@@ -456,7 +506,7 @@ func runRTCount(r *vkit.R, sc rtScenario, g *vkit.Rand) {
 	if isTB {
 		wg = x.runBucketWorkers(stop, 3, g)
 	} else {
-		wg = x.runInflightWorkers(stop, int(x.bound())+6, g)
+		wg = x.runInflightWorkers(stop, x.inflightWorkers(), g)
 	}
 
 	// scenario driver: readiness flaps, server unknown, outage switch
@@ -501,20 +551,18 @@ func runRTCount(r *vkit.R, sc rtScenario, g *vkit.Rand) {
 	x.reportPanics(r)
 	classSig := map[string]string{"reject-above-global": "reject/limit-above-global", "reject-negative": "reject/limit-negative"}
 	if !isTB {
-		if x.maxShadow > x.bound() {
+		if x.otherMax > cfg.G {
 			cs, ok := classSig[sc.Class]
 			if !ok {
 				cs = "rt-" + sc.Class
 			}
 			r.Violation("C09/count-maxinflight/exceeds-global/"+cs,
-				fmt.Sprintf("max-in-flight schema local=%d global=%d, count strategy, real worker, scenario %q: %d requests were in flight at once %.3fs into the run (%d server replies so far)",
-					cfg.L, cfg.G, sc.Class, x.maxShadow, float64(x.overAt-x.start)/1e9, x.overReply), sc)
+				fmt.Sprintf("max-in-flight schema local=%d global=%d, count strategy, real worker, scenario %q: %d requests were in flight at once %.3fs into the run (%d server replies so far), not explained by a local<->remote switch (one limiter object alone is over its limit)",
+					cfg.L, cfg.G, sc.Class, x.otherMax, float64(x.overAt-x.start)/1e9, x.overReply), sc)
 		}
+		x.reportCarryover(r, sigCarryCount, fmt.Sprintf("count strategy, real worker, scenario %q", sc.Class), sc)
 		if int(x.maxShadow) >= int(cfg.L) {
 			r.Count("rt_mi_reached_local", 1)
-		}
-		if x.maxShadow > cfg.G {
-			r.Count("rt_carryover_above_global_observed", 1)
 		}
 		return
 	}
@@ -623,7 +671,7 @@ func runRTAllocate(r *vkit.R, sc allocRT, g *vkit.Rand) {
 	if isTB {
 		wg = x.runBucketWorkers(stop, 2, g)
 	} else {
-		wg = x.runInflightWorkers(stop, int(cfg.G)+6, g)
+		wg = x.runInflightWorkers(stop, x.inflightWorkers(), g)
 	}
 	// from here on the limiter's own goroutine does everything: waits for readiness (500 ms poll), then one round trip
 	// every 2 s
@@ -644,10 +692,8 @@ func runRTAllocate(r *vkit.R, sc allocRT, g *vkit.Rand) {
 	x.reportPanics(r)
 	last := sc.Replies[len(sc.Replies)-1]
 	if !isTB {
-		if x.maxShadow > cfg.G {
-			r.Count("rt_carryover_above_global_observed", 1) // local + remote semaphore together; judged only above global+local
-		}
-		if x.maxShadow > x.bound() {
+		x.reportCarryover(r, sigCarryAllocate, "allocate strategy, real 2 s ticker (the workers start under the local limiter, before the first answer)", sc)
+		if x.otherMax > cfg.G {
 			k := int(x.overReply) - 1
 			if k < 0 {
 				k = 0
@@ -668,7 +714,7 @@ func runRTAllocate(r *vkit.R, sc allocRT, g *vkit.Rand) {
 				pos = "first-answer"
 			}
 			r.Violation(fmt.Sprintf("C09/allocate-maxinflight/exceeds-global/%s/%s", pos, grantClass(cfg, sc.Replies[k].Q, sc.Replies[k].B)),
-				fmt.Sprintf("max-in-flight schema local=%d global=%d, allocate strategy, real 2 s ticker: %d requests in flight at once after server reply #%d (quota %d); even with the requests the local limiter admitted before the first answer still in flight at most %d are possible", cfg.L, cfg.G, x.maxShadow, k, sc.Replies[k].Q, x.bound()), sc)
+				fmt.Sprintf("max-in-flight schema local=%d global=%d, allocate strategy, real 2 s ticker: %d requests in flight at once after server reply #%d (quota %d), not explained by a local<->remote switch (one limiter object alone is over its limit)", cfg.L, cfg.G, x.otherMax, k, sc.Replies[k].Q), sc)
 			return
 		}
 		// quiescent probe: the last (repeating) grant must be in effect
